@@ -62,6 +62,9 @@ class Scheduler:
         self.events = []
         self.algtime = {}
         self.delay_offset = 0
+        # Ingest demand accepted in the current timestep; its machines are
+        # only taken from the cluster later in the timestep
+        self._pending_ingest = (None, 0)
 
     def start(self):
         """
@@ -168,7 +171,11 @@ class Scheduler:
 
         cluster_capacity = False
         pipeline_demand = pipelines[observation.name]['ingest_demand']
-        if self.cluster.check_ingest_capacity(pipeline_demand, max_ingest):
+        pending_time, pending_demand = self._pending_ingest
+        if pending_time != self.env.now:
+            pending_demand = 0
+        if self.cluster.check_ingest_capacity(pipeline_demand + pending_demand,
+                                              max_ingest):
             if self.provision_ingest + pipeline_demand <= max_ingest:
                 cluster_capacity = True
                 LOGGER.debug(
@@ -183,6 +190,8 @@ class Scheduler:
         if buffer_capacity and cluster_capacity:
             # Only an observation that is going ahead reserves ingest machines
             self.provision_ingest += pipeline_demand
+            self._pending_ingest = (self.env.now,
+                                    pending_demand + pipeline_demand)
             return True
         return False
 
